@@ -250,6 +250,9 @@ type obsCall struct {
 	Method  string      `json:"method"`
 	Streams []obsStream `json:"streams"`
 	Notes   []string    `json:"notes,omitempty"` // client-side protocol problems
+	// how the client shipped its own batches (not part of the comparison)
+	ReqViaShm bool `json:"request_via_shm"`
+	InViaShm  int  `json:"inputs_via_shm"`
 }
 
 // render is the comparison key: everything except how a batch travelled.
@@ -290,6 +293,8 @@ type client struct {
 	seg  *cliSeg // segment the client currently uses (nil = none)
 	st   *shmStats
 	leak []string // slot-accounting problems found after calls
+
+	lastReqViaShm bool // the request of the current call travelled as a pointer batch
 
 	// hold mode: result pointers are kept and released later, in random order
 	hold      int
@@ -466,6 +471,7 @@ func (c *client) buildRequest(cs callSpec) []byte {
 			z := zeroRows(paramSchema, keys, vals)
 			defer z.Release()
 			c.st.reqViaShm++
+			c.lastReqViaShm = true
 			return gen.IPCBytes(paramSchema, z)
 		}
 	}
@@ -505,7 +511,13 @@ func (c *client) do(cs callSpec) obsCall {
 	call := obsCall{Method: cs.Method}
 	// All segment writes for this step happen BEFORE anything is sent: while the
 	// server works, the client does not touch the segment (lockstep).
+	c.lastReqViaShm = false
 	req := c.buildRequest(cs)
+	call.ReqViaShm = c.lastReqViaShm
+	// The client engages shm for this call's inputs when the init request either
+	// advertised the segment or referenced it (was itself a pointer request) —
+	// the two ways serveOne documents for exposing the segment to a dispatch.
+	engaged := cs.Advertise || c.lastReqViaShm
 	if !isStreamMethod(cs.Method) {
 		c.w.Write(req)
 		call.Streams = append(call.Streams, c.readStream(&call, nil))
@@ -532,11 +544,12 @@ func (c *client) do(cs callSpec) obsCall {
 			case cs.RawPtr == "input" && turn == 1:
 				b = zeroRows(exchangeIn, []string{vgirpc.MetaShmOffset, vgirpc.MetaShmLength}, []string{strconv.Itoa(shmref.HeaderSize), "512"})
 				data.Release()
-			case cs.InPtr && c.seg != nil:
+			case cs.InPtr && c.seg != nil && engaged:
 				if off, ln, ok := c.seg.put(data, fmt.Sprintf("exchange input turn %d", turn)); ok {
 					b = zeroRows(exchangeIn, []string{vgirpc.MetaShmOffset, vgirpc.MetaShmLength}, []string{strconv.FormatUint(off, 10), strconv.Itoa(ln)})
 					data.Release()
 					c.st.inViaShm++
+					call.InViaShm++
 				} else {
 					b = data
 				}
